@@ -50,7 +50,7 @@ OpOK ==
     LET c == Ev.c  s == Cur(c)  t == New(c) IN
     CASE Ev.op = "I" -> InsertOK(s, Ev.k, Ev.u, Ev.pos, Ev.ins, t) /\ OtherSame(c)
       [] Ev.op = "H" -> (\E b \in BOOLEAN : InsertOK(s, Ev.k, Ev.u, Ev.pos, b, t)) /\ OtherSame(c)
-      [] Ev.op = "R" -> InsertRangeOK(s, Ev.es, t) /\ OtherSame(c)
+      [] Ev.op = "R" -> InsertRangeFast(s, Ev.es, t) /\ OtherSame(c)      \* = InsertRangeOK (checked by TLC: MC_RangeEq), without its search
       [] Ev.op = "E" -> EraseKeyOK(s, Ev.k, Ev.n, t) /\ OtherSame(c)
       [] Ev.op = "O" -> EraseOneOK(s, Ev.k, Ev.ins, t) /\ OtherSame(c)
       [] Ev.op = "X" -> EraseIterOK(s, Ev.pos, t) /\ OtherSame(c)
